@@ -18,10 +18,12 @@ import (
 	"time"
 
 	"github.com/restic/restic/internal/backend"
+	"github.com/restic/restic/internal/global"
 	"github.com/restic/restic/internal/repository"
 	"github.com/restic/restic/internal/repository/index"
 	"github.com/restic/restic/internal/repository/pack"
 	"github.com/restic/restic/internal/restic"
+	"github.com/restic/restic/internal/ui/progress"
 )
 
 var _ = verifRegister("C33", engineC33)
@@ -57,6 +59,7 @@ type c33Force struct {
 	corrupt   int    // -1 random, else number of undecodable index files
 	keepable  int    // -1 random, 0 never, 1 thresholds small
 	fake      int    // -1 random
+	cache     bool   // local cache enabled, holding a damaged copy of every tree pack
 }
 
 func c33Entry(names *c33Names, b pack.Blob) string {
@@ -145,7 +148,7 @@ func c33Scenario(c *vctx, rng *vrng, num int, kind string, f c33Force) error {
 			nb := 1 + rng.intn(4)
 			for i := 0; i < nb; i++ {
 				t := restic.DataBlob
-				if rng.chance(35) {
+				if rng.chance(35) || (f.cache && i == 0) {
 					t = restic.TreeBlob
 				}
 				buf := c33Blob(rng)
@@ -166,6 +169,59 @@ func c33Scenario(c *vctx, rng *vrng, num int, kind string, f c33Force) error {
 		}
 	}
 	lap("blobs")
+	cacheDir := filepath.Join(e.base, "cache-on")
+	if f.cache {
+		// load every tree blob through a cache-enabled repository (tree packs get cached), then damage the cached files
+		_ = os.MkdirAll(cacheDir, 0o700)
+		_, _, cerr := e.run(func(ctx context.Context, gopts global.Options) error {
+			gopts.NoCache = false
+			gopts.CacheDir = cacheDir
+			printer := progress.NewTerminalPrinter(false, 0, gopts.Term)
+			rc, err := global.OpenRepository(ctx, gopts, printer)
+			if err != nil {
+				return err
+			}
+			if err := rc.LoadIndex(ctx, restic.NoopTerminalCounterFactory); err != nil {
+				return err
+			}
+			var hs []restic.BlobHandle
+			_ = rc.ListBlobs(ctx, func(pb restic.PackBlob) {
+				if pb.Handle().Type == restic.TreeBlob {
+					hs = append(hs, pb.Handle())
+				}
+			})
+			for _, h := range hs {
+				if _, err := rc.LoadBlob(ctx, h, nil); err != nil {
+					return err
+				}
+			}
+			return nil
+		})
+		if cerr != nil {
+			return fmt.Errorf("filling the cache: %w", cerr)
+		}
+		ncached := 0
+		_ = filepath.Walk(cacheDir, func(p string, fi os.FileInfo, err error) error {
+			if err == nil && !fi.IsDir() && strings.Contains(p, string(filepath.Separator)+"data"+string(filepath.Separator)) {
+				_ = os.Chmod(p, 0o600)
+				if b, err := os.ReadFile(p); err == nil && len(b) > 8 {
+					if rng.bool() {
+						b = b[:len(b)-1-rng.intn(len(b)/2)]
+					} else {
+						b[len(b)-1-rng.intn(8)] ^= 0x10
+					}
+					if os.WriteFile(p, b, 0o600) == nil {
+						ncached++
+					}
+				}
+			}
+			return nil
+		})
+		if ncached == 0 {
+			return fmt.Errorf("no tree pack was cached")
+		}
+		c.Hist(fmt.Sprintf("damaged-cached-packs=%d", min(ncached, 3)))
+	}
 	// original (correct) index content
 	orig := map[restic.ID][]pack.Blob{}
 	var origIdx []restic.ID
@@ -451,7 +507,17 @@ func c33Scenario(c *vctx, rng *vrng, num int, kind string, f c33Force) error {
 	if readAll {
 		args = append(args, "--read-all-packs")
 	}
-	_, _, rerr := e.cli(args...)
+	var rerr error
+	if f.cache {
+		// same command body, on a repository opened with the local cache enabled (the CLI runner always adds --no-cache)
+		_, _, rerr = e.run(func(ctx context.Context, gopts global.Options) error {
+			gopts.NoCache = false
+			gopts.CacheDir = cacheDir
+			return runRebuildIndex(ctx, RepairIndexOptions{ReadAllPacks: readAll}, gopts, gopts.Term)
+		})
+	} else {
+		_, _, rerr = e.cli(args...)
+	}
 	lap("repair")
 	mods := e.rec.Mods()
 	var ops []string
@@ -568,6 +634,8 @@ func engineC33(c *vctx) error {
 		{"corpus-hdrflip", c33Force{readAll: 1, nfiles: 1, corrupt: 0, keepable: 0, fake: 0, damage: "hdrflip", treatment: "exact"}},
 		{"corpus-corrupt-index", c33Force{readAll: 0, nfiles: 2, corrupt: 2, keepable: 0, fake: 0, damage: "none", treatment: "exact"}},
 		{"corpus-keepable", c33Force{readAll: 0, nfiles: 3, corrupt: 0, keepable: 1, fake: 0, damage: "none", treatment: "exact"}},
+		{"corpus-damaged-cache", c33Force{readAll: 1, nfiles: 1, corrupt: 0, keepable: 0, fake: 0, damage: "none", treatment: "exact", cache: true}},
+		{"corpus-damaged-cache", c33Force{readAll: 0, nfiles: 1, corrupt: 0, keepable: 0, fake: 0, damage: "none", treatment: "absent", cache: true}},
 		{"corpus-full-index-missing-pack", c33Force{readAll: 0, nfiles: 1, corrupt: 0, keepable: 2, fake: 1, damage: "delete", treatment: "exact"}},
 		{"corpus-full-index-truncated-pack", c33Force{readAll: 0, nfiles: 1, corrupt: 0, keepable: 2, fake: 0, damage: "truncate", treatment: "exact"}},
 		{"corpus-full-index-truncated-pack", c33Force{readAll: 0, nfiles: 2, corrupt: 0, keepable: 2, fake: 0, damage: "append", treatment: "exact"}},
